@@ -306,3 +306,21 @@ func H_C17_filter() {
 		vfAssert(hit, "matching-log-passes-topic-filter")
 	}
 }
+
+// ---- (3b) the value predicate itself on values wider than a word ----
+//
+// A dynamic reference may select a byte string of any length; the integer operators compare it as
+// one big-endian unsigned integer of that length (docs/event.md), not as its low 256 bits. The
+// log parsing is left out here (it is the subject of the harnesses above), so the value can range
+// over the full width of the big.Int model.
+func H_C17_value_predicate_wide() {
+	p := vfValidShape("pred", 2)
+	vfAssume(p.Validate() == nil)
+	val := vfBytes("value", vfParam("vallen", 40))
+	got, err := p.ValuePredicate.Match(val)
+	vfAssert(err == nil, "no-error-for-valid-predicate")
+	vfAssert(got == vfRefPredicate(&p.ValuePredicate, val), "predicate-equals-documented-semantics-on-values-of-any-length")
+	if len(val) > 32 {
+		vfReach("wider-than-a-word")
+	}
+}
